@@ -11,9 +11,9 @@ pivots of the forward sweep satisfy
 
 * `Line.pivotsOk_of_pivSeq`      : pointwise pivots ≠ 0 ⇒ `PivotsOk 1 0 (L.rows φ)` (converse of `Line.pivots_ne_zero`)
 * `Line.pivSeq_lower`, `Line.pivotsOk_of_nonneg` : the M-matrix case for an abstract `Line`
-* `mkLine_pivotsOk`              : `mkLine` under the mesh-Péclet condition (any delj in [0,1])
+* `mkLine_pivotsOk`, `mkLine_pivotsOk_peclet` : `mkLine` when atemp, ctemp ≥ 0 / under the mesh-Péclet condition
 * `axisLine_pivotsOk_nomig`      : `axisLine` without migration and selection — unconditional
-* `axisLine_pivotsOk_peclet`     : `axisLine` with `use = false` (delj = 1/2) under `|M|·dx ≤ V`
+* `axisLine_pivotsOk_peclet`     : `axisLine` with `use = false` (delj = 1/2) under `−V(x_i) ≤ M·dx ≤ V(x_{i+1})`
 * `marginal_2D_pop0_step_nopiv`, `marginal_2D_pop0_integrate_nopiv` : the isolated-marginal theorems with the pivot hypotheses
   for population 0 and for the 1-D system discharged.
 -/
@@ -96,7 +96,7 @@ theorem Line.pivSeq_lower (L : Line) (hinc : ∀ j, j + 1 < L.N → L.x j < L.x 
     have hdt' : 0 < 1 / L.dt := one_div_pos.mpr hdt
     have hbj := hbc j
     have hppos : 0 < p := by linarith
-    have hdp : d / p ≤ 1 := (div_le_one hppos).mpr (by linarith)
+    have hdp : d / p ≤ 1 := (div_le_iff₀ hppos).mpr (by linarith)
     have hedp : e * (d / p) ≤ e := mul_le_of_le_one_right he0 hdp
     have key : L.a (j+1) * (L.c j / p) = e * (d / p) := by
       simp only [Line.a, Line.c, if_pos hj, if_neg (Nat.succ_ne_zero j), hd, he]
@@ -137,55 +137,40 @@ theorem Line.pivSeq_pos (L : Line) (hinc : ∀ j, j + 1 < L.N → L.x j < L.x (j
 
 /-! ### 3. `mkLine` under the mesh-Péclet condition -/
 
-/-- **(3)** `mkLine`: if delj ∈ [0,1] and on every interval `|M|·delj·2dx ≤ V(left)`, `|M|·(1−delj)·2dx ≤ V(right)` (mesh-Péclet
-    condition; with delj = 1/2 this is `|M|·dx ≤ V`), ν > 0, dt > 0, then no pivot vanishes — whatever the corner flags. -/
+/-- **(3)** `mkLine`: if on every interval the two flux coefficients `atemp = M·delj + V(left)/(2dx)` and
+    `ctemp = −M·(1−delj) + V(right)/(2dx)` are non-negative (M-matrix condition), ν > 0, dt > 0, then no pivot vanishes —
+    whatever the corner flags, whatever delj. -/
 theorem mkLine_pivotsOk (xs : Array ℚ) (hg : GridOk xs) (V M : ℚ → ℚ) (delj : ℕ → ℚ) (nu : ℚ) (hnu : 0 < nu)
     (z o : Bool) (dt : ℚ) (hdt : 0 < dt)
-    (hd : ∀ i, i + 1 < xs.size → 0 ≤ delj i ∧ delj i ≤ 1)
     (hpe : ∀ i, i + 1 < xs.size →
-      |M (1/2 * (xs.getD (i+1) 0 + xs.getD i 0))| * delj i * (2 * (xs.getD (i+1) 0 - xs.getD i 0)) ≤ V (xs.getD i 0)
-      ∧ |M (1/2 * (xs.getD (i+1) 0 + xs.getD i 0))| * (1 - delj i) * (2 * (xs.getD (i+1) 0 - xs.getD i 0))
-          ≤ V (xs.getD (i+1) 0)) :
+      0 ≤ M (1/2 * (xs.getD (i+1) 0 + xs.getD i 0)) * delj i + V (xs.getD i 0) / (2 * (xs.getD (i+1) 0 - xs.getD i 0))
+      ∧ 0 ≤ -M (1/2 * (xs.getD (i+1) 0 + xs.getD i 0)) * (1 - delj i)
+            + V (xs.getD (i+1) 0) / (2 * (xs.getD (i+1) 0 - xs.getD i 0))) :
     ∀ φ, PivotsOk 1 0 ((mkLine xs V M delj nu z o dt).rows φ) := by
-  apply Line.pivotsOk_of_nonneg _ (fun j hj => hg.2 j hj) hdt
+  intro φ
+  refine Line.pivotsOk_of_nonneg (mkLine xs V M delj nu z o dt) (fun j hj => hg.2 j hj) hdt ?_ ?_ ?_ φ
   · intro k hk1 hk2
     obtain ⟨i, rfl⟩ : ∃ i, k = i + 1 := ⟨k - 1, by omega⟩
     have hi : i + 1 < xs.size := hk2
-    have hdx : 0 < xs.getD (i+1) 0 - xs.getD i 0 := by have := hg.2 i hi; linarith
-    obtain ⟨hd0, hd1⟩ := hd i hi
     have h := (hpe i hi).1
     show 0 ≤ C.atemp (M (1/2 * (xs.getD (i+1-1+1) 0 + xs.getD (i+1-1) 0))) (delj (i+1-1)) (V (xs.getD (i+1-1) 0))
       (V (xs.getD (i+1) 0)) (xs.getD (i+1-1+1) 0 - xs.getD (i+1-1) 0)
     simp only [Nat.add_sub_cancel, C.atemp]
-    set m := M (1/2 * (xs.getD (i+1) 0 + xs.getD i 0))
-    have h1 : |m| * delj i ≤ V (xs.getD i 0) / (2 * (xs.getD (i+1) 0 - xs.getD i 0)) := by
-      rw [le_div_iff₀ (by linarith)]; exact h
-    have h2 : -(|m| * delj i) ≤ m * delj i := by
-      have := neg_abs_le m
-      nlinarith [mul_nonneg (by linarith : 0 ≤ m + |m|) hd0]
-    linarith
+    exact h
   · intro k hk1 hk2
     obtain ⟨i, rfl⟩ : ∃ i, k = i + 1 := ⟨k - 1, by omega⟩
     have hi : i + 1 < xs.size := hk2
-    have hdx : 0 < xs.getD (i+1) 0 - xs.getD i 0 := by have := hg.2 i hi; linarith
-    obtain ⟨hd0, hd1⟩ := hd i hi
     have h := (hpe i hi).2
     show 0 ≤ C.ctemp (M (1/2 * (xs.getD (i+1-1+1) 0 + xs.getD (i+1-1) 0))) (delj (i+1-1)) (V (xs.getD (i+1-1) 0))
       (V (xs.getD (i+1) 0)) (xs.getD (i+1-1+1) 0 - xs.getD (i+1-1) 0)
     simp only [Nat.add_sub_cancel, C.ctemp]
-    set m := M (1/2 * (xs.getD (i+1) 0 + xs.getD i 0))
-    have h1 : |m| * (1 - delj i) ≤ V (xs.getD (i+1) 0) / (2 * (xs.getD (i+1) 0 - xs.getD i 0)) := by
-      rw [le_div_iff₀ (by linarith)]; exact h
-    have h2 : -(|m| * (1 - delj i)) ≤ -m * (1 - delj i) := by
-      have := le_abs_self m
-      nlinarith [mul_nonneg (by linarith : 0 ≤ |m| - m) (by linarith : 0 ≤ 1 - delj i)]
-    linarith
+    exact h
   · intro j
     have h2 := hg.1
     have hdx0 : 0 < xs.getD (0+1) 0 - xs.getD 0 0 := by have := hg.2 0 (by omega); linarith
     have hdxl : 0 < xs.getD (xs.size - 2 + 1) 0 - xs.getD (xs.size - 2) 0 := by
       have := hg.2 (xs.size - 2) (by omega); linarith
-    have hnu' : 0 < 1 / 2 / nu := by positivity
+    have hnu' : 0 < 1 / 2 / nu := div_pos (by norm_num) hnu
     show 0 ≤ (if j = 0 ∧ z = true ∧ M (xs.getD 0 0) ≤ 0 then C.bcFirst nu (M (xs.getD 0 0)) (xs.getD (0+1) 0 - xs.getD 0 0) else 0)
       + (if j + 1 = xs.size ∧ o = true ∧ M (xs.getD (xs.size - 1) 0) ≥ 0
           then C.bcLast nu (M (xs.getD (xs.size - 1) 0)) (xs.getD (xs.size - 2 + 1) 0 - xs.getD (xs.size - 2) 0) else 0)
@@ -204,6 +189,36 @@ theorem mkLine_pivotsOk (xs : Array ℚ) (hg : GridOk xs) (V M : ℚ → ℚ) (d
         rw [e]; nlinarith
       · exact le_refl _
 
+/-- mesh-Péclet form: delj ∈ [0,1] and `|M|·delj·2dx ≤ V(left)`, `|M|·(1−delj)·2dx ≤ V(right)` on every interval
+    (with delj = 1/2: `|M|·dx ≤ V`) imply the M-matrix condition of `mkLine_pivotsOk` -/
+theorem mkLine_pivotsOk_peclet (xs : Array ℚ) (hg : GridOk xs) (V M : ℚ → ℚ) (delj : ℕ → ℚ) (nu : ℚ) (hnu : 0 < nu)
+    (z o : Bool) (dt : ℚ) (hdt : 0 < dt)
+    (hd : ∀ i, i + 1 < xs.size → 0 ≤ delj i ∧ delj i ≤ 1)
+    (hpe : ∀ i, i + 1 < xs.size →
+      |M (1/2 * (xs.getD (i+1) 0 + xs.getD i 0))| * delj i * (2 * (xs.getD (i+1) 0 - xs.getD i 0)) ≤ V (xs.getD i 0)
+      ∧ |M (1/2 * (xs.getD (i+1) 0 + xs.getD i 0))| * (1 - delj i) * (2 * (xs.getD (i+1) 0 - xs.getD i 0))
+          ≤ V (xs.getD (i+1) 0)) :
+    ∀ φ, PivotsOk 1 0 ((mkLine xs V M delj nu z o dt).rows φ) := by
+  apply mkLine_pivotsOk xs hg V M delj nu hnu z o dt hdt
+  intro i hi
+  have hdx : 0 < xs.getD (i+1) 0 - xs.getD i 0 := by have := hg.2 i hi; linarith
+  obtain ⟨hd0, hd1⟩ := hd i hi
+  obtain ⟨h, h'⟩ := hpe i hi
+  set m := M (1/2 * (xs.getD (i+1) 0 + xs.getD i 0))
+  constructor
+  · have h1 : |m| * delj i ≤ V (xs.getD i 0) / (2 * (xs.getD (i+1) 0 - xs.getD i 0)) := by
+      rw [le_div_iff₀ (by linarith)]; exact h
+    have h2 : -(|m| * delj i) ≤ m * delj i := by
+      have := neg_abs_le m
+      nlinarith [mul_nonneg (by linarith : 0 ≤ m + |m|) hd0]
+    linarith
+  · have h1 : |m| * (1 - delj i) ≤ V (xs.getD (i+1) 0) / (2 * (xs.getD (i+1) 0 - xs.getD i 0)) := by
+      rw [le_div_iff₀ (by linarith)]; exact h'
+    have h2 : -(|m| * (1 - delj i)) ≤ -m * (1 - delj i) := by
+      have := le_abs_self m
+      nlinarith [mul_nonneg (by linarith : 0 ≤ |m| - m) (by linarith : 0 ≤ 1 - delj i)]
+    linarith
+
 /-! ### 4. `axisLine` -/
 
 /-- the drift coefficient is non-negative on [0,1] -/
@@ -214,13 +229,13 @@ theorem AxisParams.V_nonneg (P : AxisParams) (hnu : 0 < P.nu) (hβ : ∀ β, P.b
   cases hb : P.beta with
   | none =>
     simp only [C.Vfunc]
-    have : 0 ≤ 1 / P.nu := by positivity
+    have : 0 ≤ 1 / P.nu := le_of_lt (one_div_pos.mpr hnu)
     nlinarith [mul_nonneg this hu]
   | some β =>
     have hβ0 := hβ β hb
     simp only [C.Vfunc_beta]
     apply div_nonneg _ (by linarith)
-    have : 0 ≤ 1 / P.nu := by positivity
+    have : 0 ≤ 1 / P.nu := le_of_lt (one_div_pos.mpr hnu)
     have h2 : 0 ≤ 1 / P.nu * u * (1 - u) := by nlinarith [mul_nonneg this hu]
     exact mul_nonneg h2 (sq_nonneg _)
 
@@ -247,21 +262,27 @@ theorem axisLine_pivotsOk_nomig (xs : Array ℚ) (hg : GridOk xs) (hx0 : 0 ≤ x
     have := hg.bounds i hi
     exact P.V_nonneg hnu hβ _ (by linarith) (by linarith)
   apply mkLine_pivotsOk xs hg P.V (fun _ => 0) (fun _ => 1/2) P.nu hnu _ _ dt hdt
-  · intro i _; constructor <;> norm_num
-  · intro i hi
-    simp only [abs_zero, zero_mul]
-    exact ⟨hV i (by omega), hV (i+1) hi⟩
+  intro i hi
+  have hdx : 0 < xs.getD (i+1) 0 - xs.getD i 0 := by have := hg.2 i hi; linarith
+  have h1 := hV i (by omega)
+  have h2 := hV (i+1) hi
+  constructor
+  · have : 0 ≤ P.V (xs.getD i 0) / (2 * (xs.getD (i+1) 0 - xs.getD i 0)) := div_nonneg h1 (by linarith)
+    linarith
+  · have : 0 ≤ P.V (xs.getD (i+1) 0) / (2 * (xs.getD (i+1) 0 - xs.getD i 0)) := div_nonneg h2 (by linarith)
+    linarith
 
 theorem deljC_false (eps : ℕ → ℚ) (MI VI dx : ℕ → ℚ) : deljC false eps MI VI dx = fun _ => 1/2 := by
   funext i; simp [deljC]
 
-/-- **(3')** `axisLine` with delj = 1/2 (`use = false`) and arbitrary migration/selection, under the mesh-Péclet condition
-    `|M(x_{i+½})|·(x_{i+1} − x_i) ≤ V(x_i), V(x_{i+1})` on every interval -/
+/-- **(3')** `axisLine` with delj = 1/2 (`use = false`) and arbitrary migration/selection, under the M-matrix condition
+    `−V(x_i) ≤ M(x_{i+½})·(x_{i+1} − x_i) ≤ V(x_{i+1})` on every interval (implied by `|M|·dx ≤ V` at both ends; note that
+    V(0) = V(1) = 0 forces M ≥ 0 on the first and M ≤ 0 on the last interval — true for migration, not for selection) -/
 theorem axisLine_pivotsOk_peclet (xs : Array ℚ) (hg : GridOk xs) (P : AxisParams) (hnu : 0 < P.nu)
     (ys : List ℚ) (eps : ℕ → ℚ) (dt : ℚ) (hdt : 0 < dt)
     (hpe : ∀ i, i + 1 < xs.size →
-      |Mgen (1/2 * (xs.getD (i+1) 0 + xs.getD i 0)) P.ms ys P.gamma P.h| * (xs.getD (i+1) 0 - xs.getD i 0) ≤ P.V (xs.getD i 0)
-      ∧ |Mgen (1/2 * (xs.getD (i+1) 0 + xs.getD i 0)) P.ms ys P.gamma P.h| * (xs.getD (i+1) 0 - xs.getD i 0)
+      -(P.V (xs.getD i 0)) ≤ Mgen (1/2 * (xs.getD (i+1) 0 + xs.getD i 0)) P.ms ys P.gamma P.h * (xs.getD (i+1) 0 - xs.getD i 0)
+      ∧ Mgen (1/2 * (xs.getD (i+1) 0 + xs.getD i 0)) P.ms ys P.gamma P.h * (xs.getD (i+1) 0 - xs.getD i 0)
           ≤ P.V (xs.getD (i+1) 0)) :
     ∀ φ, PivotsOk 1 0 ((axisLine xs P ys false eps dt).rows φ) := by
   have e : axisLine xs P ys false eps dt
@@ -269,12 +290,20 @@ theorem axisLine_pivotsOk_peclet (xs : Array ℚ) (hg : GridOk xs) (P : AxisPara
     simp only [axisLine, Mkernel_getD, deljC_false]
   rw [e]
   apply mkLine_pivotsOk xs hg P.V _ (fun _ => 1/2) P.nu hnu _ _ dt hdt
-  · intro i _; constructor <;> norm_num
-  · intro i hi
-    obtain ⟨h1, h2⟩ := hpe i hi
-    constructor
-    · linarith
-    · linarith
+  intro i hi
+  have hdx : 0 < xs.getD (i+1) 0 - xs.getD i 0 := by have := hg.2 i hi; linarith
+  obtain ⟨h1, h2⟩ := hpe i hi
+  set m := Mgen (1/2 * (xs.getD (i+1) 0 + xs.getD i 0)) P.ms ys P.gamma P.h
+  set dx := xs.getD (i+1) 0 - xs.getD i 0
+  have e1 : m * (1/2) + P.V (xs.getD i 0) / (2 * dx) = (m * dx + P.V (xs.getD i 0)) / (2 * dx) := by
+    field_simp
+  have e2 : -m * (1 - 1/2) + P.V (xs.getD (i+1) 0) / (2 * dx) = (P.V (xs.getD (i+1) 0) - m * dx) / (2 * dx) := by
+    field_simp; ring
+  constructor
+  · show 0 ≤ m * (1/2) + P.V (xs.getD i 0) / (2 * dx)
+    rw [e1]; exact div_nonneg (by linarith) (by linarith)
+  · show 0 ≤ -m * (1 - 1/2) + P.V (xs.getD (i+1) 0) / (2 * dx)
+    rw [e2]; exact div_nonneg (by linarith) (by linarith)
 
 /-! ### 5. the isolated-marginal theorems without pivot hypotheses for population 0 and the 1-D system -/
 
@@ -318,5 +347,39 @@ theorem marginal_2D_pop0_integrate_nopiv (xs : Array ℚ) (hg : GridOk xs) (hN :
   marginal_invariant_integrate (Marg2D0 xs) _ _ tf PD PS Tend hdtEq hpos
     (fun dt hdt => marginal_2D_pop0_step_nopiv xs hg hN hx0 hx1 frD nmD frS nmS hfr hnm useD useS epsD epsS PD PS p0 p1 q0
       hPD hPS hθ hg0 hm0 hgq hmq hnu hnupos hβD hβS hV dt hdt (hpiv1 dt hdt))
+
+/-! ### 6. non-vacuity -/
+namespace MarginalExample
+
+/-- `axisLine_pivotsOk_nomig`: hypotheses satisfiable (corner line, Chang–Cooper switched on with arbitrary eps, dt = 1/3) -/
+example : ∀ φ, PivotsOk 1 0 ((axisLine xs3 (P [0, 0]) [0, 0] true (fun _ => 2) (1/3)).rows φ) :=
+  axisLine_pivotsOk_nomig xs3 gridOk (by norm_num [xs3, Array.getD]) (by norm_num [xs3, Array.getD]) (P [0, 0]) rfl
+    (by simp [P]) (by norm_num [P]) (fun β h => by simp [P] at h) [0, 0] true (fun _ => 2) (1/3) (by norm_num)
+
+/-- `axisLine_pivotsOk_peclet`: hypotheses satisfiable with migration m = 1/10 from a population at frequency 1/2 -/
+example : ∀ φ, PivotsOk 1 0
+    ((axisLine xs3 { nu := 1, gamma := 0, h := 1/2, ms := [1/10], beta := none } [1/2] false (fun _ => 0) 1).rows φ) := by
+  apply axisLine_pivotsOk_peclet xs3 gridOk _ (by norm_num) [1/2] (fun _ => 0) 1 one_pos
+  intro i hi
+  have h3 : i + 1 < 3 := hi
+  rcases (by omega : i = 0 ∨ i = 1) with rfl | rfl <;>
+    norm_num [xs3, Array.getD, Mgen, AxisParams.V, C.Vfunc]
+
+/-- `marginal_2D_pop0_step_nopiv`: all hypotheses satisfiable (population 1's pivot hypothesis by `axisLine_pivotsOk_nomig` too) -/
+example (epsD epsS : ℕ → List ℕ → ℕ → ℚ) (T U : List ℕ → ℚ) (h : Marg2D0 xs3 T U) (dt : ℚ) (hdt : 0 < dt) :
+    Marg2D0 xs3 (sweepFn [xs3, xs3] [false, false] [false, false] true epsD ⟨[pop2, pop2], 1, none⟩ dt T)
+      (sweepFn [xs3] [false] [false] false epsS ⟨[pop1], 1, some 1⟩ dt U) :=
+  marginal_2D_pop0_step_nopiv xs3 gridOk (by decide) (by norm_num [xs3, Array.getD]) (by norm_num [xs3, Array.getD])
+    [false, false] [false, false] [false] [false] rfl rfl true false epsD epsS ⟨[pop2, pop2], 1, none⟩ ⟨[pop1], 1, some 1⟩
+    pop2 pop2 pop1 rfl rfl rfl rfl (by simp [pop2]) rfl (by simp [pop1]) rfl (by norm_num [pop2])
+    (fun β h => by simp at h) (fun β h => by simp at h; rw [← h]; norm_num)
+    (fun u => (AxisParams.V_beta_one (pop1.axis (some 1)) (pop2.axis none) rfl rfl rfl u).symm)
+    dt hdt
+    (fun ys eps φ => axisLine_pivotsOk_nomig xs3 gridOk (by norm_num [xs3, Array.getD]) (by norm_num [xs3, Array.getD])
+      (pop2.axis none) rfl (by simp [pop2, PopParams.axis]) (by norm_num [pop2, PopParams.axis]) (fun β h => by simp [PopParams.axis] at h)
+      ys true eps dt hdt φ)
+    T U h
+
+end MarginalExample
 
 end DadiVerif
